@@ -1,15 +1,13 @@
-\* exhaustive check, guard ownership as in the code (GuardLate = FALSE unless overridden)
-SPECIFICATION FairSpec
+\* exhaustive safety check (fault enumeration), guard ownership as in the code unless GuardLate is overridden
+SPECIFICATION Spec
 VIEW View
 INVARIANT OnConnectOnce AtMostOneDisconnect DisconnectOnlyAfterAllow GuardConservation DeniedNeverRegistered
 INVARIANT RegistryOnlyLive IdsDistinct ExactlyOnceAtEnd
-PROPERTY Monotone AdmittedEventuallyDisconnected
+PROPERTY Monotone
 CHECK_DEADLOCK FALSE
 CONSTANTS
   Keys = {"A", "B"}
   KeyOf <- MC_KeyOf
-  Causes = {"close", "disc_id", "disc_key", "shutdown"}
+  Causes = {"close", "disc_id", "disc_key", "shutdown", "displaced"}
   QuiescentEnv = FALSE
-  Paths = {"km", "challenge"}
-  Proofs = {TRUE, FALSE}
-  Helper = FALSE
+  Helper = TRUE
